@@ -3,6 +3,7 @@
 package main
 
 import (
+	"encoding/json"
 	"sort"
 
 	"github.com/grafana/cog/verifx/gschema"
@@ -141,6 +142,63 @@ func withDefault(t Term) (Term, bool) {
 	return t, false
 }
 
+// installDefaultFlavours adds default flavours beyond gschema's built-in
+// "scalar" | "list" | "map" through gschema's hooks: the empty list, the empty
+// map / struct, a struct value, and the zero value of each scalar kind (the
+// nil-vs-zero confusions a "has a default" test can fall for).
+func installDefaultFlavours() {
+	gschema.DefaultHook = func(s gschema.Schema, t Term) (any, bool) {
+		switch t.Default {
+		case "emptylist":
+			return []any{}, true
+		case "emptymap":
+			return map[string]any{}, true
+		case "structval":
+			if t.K == "struct" && len(t.Fields) > 0 {
+				return map[string]any{t.Fields[0].Name: "x"}, true
+			}
+		case "zero":
+			if t.K == "scalar" {
+				switch t.A {
+				case "bool":
+					return false, true
+				case "string", "any":
+					return "", true
+				case "float32", "float64":
+					return json.Number("0.0"), true
+				default:
+					return json.Number("0"), true
+				}
+			}
+		}
+		return nil, false
+	}
+}
+
+// defaultedTypes: a type with a default of every value kind (DESIGN §6 C08
+// "missing required with/without default").
+func defaultedTypes() []Term {
+	d := func(t Term, flavour string) Term { t.Default = flavour; return t }
+	return []Term{
+		d(irgen.Array(irgen.S("string")), "emptylist"),
+		d(irgen.Array(irgen.S("string")), "list"),
+		d(irgen.Array(irgen.S("int64")), "emptylist"),
+		d(irgen.Map(irgen.S("string")), "emptymap"),
+		d(irgen.Map(irgen.S("string")), "map"),
+		d(irgen.Struct1("g", false, irgen.S("string")), "emptymap"),
+		d(irgen.Struct1("g", false, irgen.S("string")), "structval"),
+		d(irgen.Enum("str"), "scalar"),
+		d(irgen.Enum("int"), "scalar"),
+		d(irgen.S("bool"), "zero"),
+		d(irgen.S("int64"), "zero"),
+		d(irgen.S("float64"), "zero"),
+		d(irgen.S("string"), "zero"),
+		d(irgen.S("bool"), "scalar"),
+		d(irgen.S("int64"), "scalar"),
+		d(irgen.S("string"), "scalar"),
+	}
+}
+
 // enumerate returns the schemas of the tier, smallest first (quick ⊆ thorough).
 func enumerate(thorough bool) []gschema.Schema {
 	seen := map[string]bool{}
@@ -263,6 +321,25 @@ func enumerate(thorough bool) []gschema.Schema {
 			add(gschema.Field1(irgen.Array(u), true))
 			add(gschema.Field1(irgen.Map(u), true))
 		}
+	}
+	// defaults of every value kind, at the root and inside a referenced struct
+	// (required: may be absent; optional: likewise), plus next to a required
+	// sibling without default
+	var refReq, refOpt wrapper
+	for _, w := range ws {
+		switch w.name {
+		case "ref-req":
+			refReq = w
+		case "ref-opt":
+			refOpt = w
+		}
+	}
+	for _, t := range defaultedTypes() {
+		add(gschema.Field1(t, true))
+		add(gschema.Field1(t, false))
+		addNested([]wrapper{refReq}, t, true)
+		addNested([]wrapper{refOpt}, t, true)
+		add(gschema.WithSupport(gschema.Obj{Name: "Root", T: irgen.StructN([]irgen.Field{{Name: "a", Required: true}, {Name: "b", Required: true}}, []Term{irgen.S("string"), t})}))
 	}
 	// two fields: required x optional over a few representative types
 	rep := []Term{irgen.S("string"), con(irgen.S("int64")), irgen.S("any"), ref("P")}
